@@ -155,3 +155,35 @@ Definition chk_kill (c : kcase) : bool :=
                         (kill_world prev new))))
       [0; 1; 2; 3; 4; 5]%nat)
     [NoFault; FailAfter tmplen].
+
+(* multi-megabyte stores: the new configuration is rebuilt inside Coq from the
+   generator (head ++ lcg_bytes seed n ++ tail); observed large files are
+   compared through their length and a few thousand sampled bytes (a full
+   bhash costs about 25 s per megabyte under vm_compute).  n: number of
+   process steps before the kill; fw: the fault of the write step. *)
+Inductive ospec := OLit (b : bytes) | OSamp (len : N) (s : list (nat * N)).
+
+Fixpoint walk (s : list (nat * N)) (l : bytes) : bool :=
+  match s with
+  | [] => true
+  | (g, v) :: s' => match skipn g l with
+                    | x :: r => (x =? v) && walk s' r
+                    | [] => false
+                    end
+  end.
+
+Definition ospec_matches (o : ospec) (b : bytes) : bool :=
+  match o with
+  | OLit l => bytes_eqb l b
+  | OSamp len s => (blen b =? len) && walk s b
+  end.
+
+Definition kbig := (option bytes * bytes * N * nat * fault * list (fname * ospec))%type.
+
+Definition chk_kill_big (c : kbig) : bool :=
+  let '(prev, new, r, n, fw, obs) := c in
+  let l := listing 0 (run cfgR marshalR (parseR [])
+                          (firstn n [Step NoFault r; Step fw r; Step NoFault r; Step NoFault r; Step NoFault r])
+                          (kill_world prev new)) in
+  (length obs =? length l)%nat &&
+  forallb (fun e => match find_name (fst e) l with Some b => ospec_matches (snd e) b | None => false end) obs.
